@@ -26,7 +26,9 @@ ToSet(s) == {s[i] : i \in 1..Len(s)}
 Star(S, all) == IF all # {} /\ S = all THEN {"*"} ELSE S
 ObsA(d, all) == [n \in Names |-> Star(CASE n = "n" -> ToSet(d.n) [] n = "n2" -> ToSet(d.n2) [] n = "o" -> ToSet(d.o), all)]
 
+\* the first event of a trace ("boot") says whether the policy directories existed when the enforcer was built
 TInit == Init /\ cid \in 1..Len(Traces) /\ l = 1 /\ ok = TRUE /\ why = "-" /\ wok = TRUE
+              /\ (dirs["d1"].exists <=> Traces[cid][1].de = 1)
 
 Ev == Traces[cid][l]
 Step(e) ==
@@ -36,6 +38,7 @@ Step(e) ==
     [] e.op = "delete"  -> Delete(e.f) /\ ok' = (ok /\ clock' = e.t) /\ why' = why
     [] e.op = "replace" -> Replace(e.f, e.kind, e.older = 1) /\ ok' = (ok /\ clock' = e.t) /\ why' = why
     [] e.op = "ignored" -> TouchIgnored(e.f) /\ ok' = (ok /\ clock' = e.t) /\ why' = why
+    [] e.op = "boot" -> UNCHANGED vars /\ ok' = ok /\ why' = why
     [] e.op = "register" -> RegisterNext /\ ok' = ok /\ why' = why
     [] e.op = "setopt"  -> SetOption(e.v = 1) /\ ok' = ok /\ why' = why
     [] e.op = "load"    ->
